@@ -1,5 +1,8 @@
 import OpusProofs.EncSkelMulti
 import OpusProofs.EncSkelCbr
+import OpusProofs.EncSkelCtl
+import OpusProofs.EncSkelMs
+import OpusProofs.EncSkelCvbr
 /-
   Property C05 — "Encoder honours the buffer limit, exact CBR size and the bitrate target".
 
@@ -14,7 +17,7 @@ import OpusProofs.EncSkelCbr
   `entryCheck … = none` is: `frame_size > 0`, `out_data_bytes ≥ 1`, not (1 byte ∧ 100 ms).
 -/
 namespace OpusProps.C05
-open Opus Opus.EncSkel Opus.EncDecide Opus.EncSkel.Proofs
+open Opus Opus.EncSkel Opus.EncDecide Opus.EncSkel.Proofs Opus.Ctl
 
 /-- Clause "exactly the size round(bitrate x duration / 8) clipped to …": `cbr_bytes` of
     opus_encoder.c:1255-1257 IS `min(⌊bitrate·T/8 + ½⌋, max_data_bytes)` over ℚ with
@@ -117,6 +120,76 @@ theorem never_internal_error (s : St) (fuzz : Bool) (fsz out : Int) (o : NatOr)
   simp only [OPUS_INTERNAL_ERROR, OPUS_BUFFER_TOO_SMALL, OPUS_BAD_ARG]
   exact ⟨by omega, by omega, by omega, h.noAbort⟩
 
+/-- "whatever the preceding history of settings", invariant part: `stOk` — the hypothesis of every
+    theorem above — is preserved by `opus_encode_native` itself: for EVERY state within `stOk`, all
+    arguments (legal or not) and ALL oracle values (no contract needed), whatever the outcome of the call,
+    the state afterwards is within `stOk`, and no setting (sampling rate, channels, application, VBR flag,
+    bit-rate, forced channels/mode/bandwidth, max bandwidth, signal type, LFE, DTX, FEC, frame duration,
+    complexity, loss percentage, energy mask) has been written. -/
+theorem stOk_preserved (s : St) (fuzz : Bool) (fsz out : Int) (o : NatOr) (h : stOk s = true) :
+    stOk (encodeNative s fuzz fsz out o).st = true ∧ Conf s (encodeNative s fuzz fsz out o).st := by
+  obtain ⟨h1, h2, _⟩ := encodeNative_stOk s fuzz fsz out o ((stOk_iff s).mp h)
+  exact ⟨(stOk_iff _).mpr h1, h2⟩
+
+/-- "for all histories": along EVERY history of one encoder object — `opus_encoder_create`, then any
+    sequence of ctl requests (property C11's `encCtl`, accepted or refused) and encode calls (any
+    arguments, any oracle values) — C11's invariant `EncInv` (= `CtlInv ∧ DInv`) holds, the skeleton state
+    is a refinement of the ctl state (`Refines`, the explicit map between the two state spaces), and
+    `stOk` holds.  So `stOk` is not an assumption about reachable states. -/
+theorem stOk_along_histories {e : EncSt} {s : St} (h : Reach e s) : EncInv e ∧ Refines e s ∧ stOk s = true :=
+  reach_inv h
+
+/-- C11's `EncInv` is carried across an encode call by the skeleton: the fields it models satisfy C11's
+    `obsRange` (so that part of C11's monitored `encodeContract` is a theorem), for any arguments and
+    oracle values. -/
+theorem encode_keeps_encInv (e : EncSt) (s : St) (fuzz : Bool) (fsz out : Int) (or : NatOr) (o : EncObs)
+    (hi : EncInv e) (hr : Refines e s) (ho : ObsOf (encodeNative s fuzz fsz out or).st o) (hf : FreeOk e o) :
+    obsRange e o = none ∧ EncInv (encAdopt e o) ∧ Refines (encAdopt e o) (encodeNative s fuzz fsz out or).st :=
+  let h := encode_keeps_inv e s fuzz fsz out or o hi hr ho hf
+  ⟨h.1, h.2.1, h.2.2.1⟩
+
+/-- "same for multistream with its per-stream split": the budget arithmetic of
+    `opus_multistream_encode_native` (:855-1012; `msCurrMax`, `msMaxBytes`, tied to the real per-stream
+    budgets by suite op `mscurr2`).  With `n ≥ 1` streams and `max_data_bytes ≥ smallest_packet` (below
+    that the call returns OPUS_BUFFER_TOO_SMALL) — and, only for CBR with OPUS_AUTO where the clamp of :882
+    has no lower bound, the allocated rate worth `smallest_packet` bytes — for ALL per-stream behaviours
+    within the single-stream contract (`1 ≤ len ≤ curr_max`, `ret_le_out`): every stream is handed a legal
+    budget (≥ 1 byte, ≥ 2 for 100 ms), the self-delimited length reserve `curr_max>253 ? 2 : 1` always
+    suffices, `1 ≤ ret ≤ max_data_bytes`, and with VBR off `ret` is exactly the clamped size. -/
+theorem ms_encode_ret_le_out (n fs fsz vbr bitrate rateSum maxData : Int) (xs : List MsStream)
+    (hn : 1 ≤ n) (hlen : (xs.length : Int) = n) (hsmall : msSmallest n fs fsz ≤ maxData)
+    (hauto : vbr = 0 → bitrate = OPUS_AUTO → msSmallest n fs fsz ≤ 3 * rateSum / (3 * 8 * fs / fsz))
+    (hok : msAllOk n fs fsz vbr (msMaxBytes vbr bitrate rateSum n fs fsz maxData) xs 0 0) :
+    msBudgetsOk n fs fsz (msMaxBytes vbr bitrate rateSum n fs fsz maxData) xs 0 0 ∧
+    1 ≤ msLoop n fs fsz vbr (msMaxBytes vbr bitrate rateSum n fs fsz maxData) xs 0 0 ∧
+    msLoop n fs fsz vbr (msMaxBytes vbr bitrate rateSum n fs fsz maxData) xs 0 0 ≤ maxData ∧
+    (vbr = 0 → msLoop n fs fsz vbr (msMaxBytes vbr bitrate rateSum n fs fsz maxData) xs 0 0 =
+       msMaxBytes vbr bitrate rateSum n fs fsz maxData) :=
+  Opus.EncSkel.Proofs.ms_encode_ret_le_out n fs fsz vbr bitrate rateSum maxData xs hn hlen hsmall hauto hok
+
+/-- Clause "with constrained VBR the long-term average rate does not exceed the requested bitrate beyond
+    a small tolerance", integer part (P2): the bit-reservoir recursion of celt_encoder.c:1785-1808 /
+    :2317-2372 (`cvbrStep`, tied by suite op `cvbrrel`) keeps `0 ≤ vbr_reservoir ≤ vbr_rate` for EVERY
+    float-driven target, and the bytes of a frame are accounted for exactly:
+    `reservoir' = max 0 (reservoir + 64·bytes − vbr_rate)`. -/
+theorem cvbr_reservoir_bounded (v res nb want : Int) (sil : Bool) (hv : 128 ≤ v) (hr0 : 0 ≤ res) (hr1 : res ≤ v)
+    (hnb : 2 ≤ nb) :
+    0 ≤ (cvbrStep v res nb want sil).1 ∧ (cvbrStep v res nb want sil).1 ≤ v ∧
+    (cvbrStep v res nb want sil).2 ≤ nb ∧
+    (cvbrStep v res nb want sil).1 = max 0 (res + 64 * (cvbrStep v res nb want sil).2 - v) :=
+  let h := cvbrStep_spec v res nb want sil hv hr0 hr1 hnb
+  ⟨h.1, h.2.1, h.2.2.1, h.2.2.2.2⟩
+
+/-- … hence, at a constant rate, over ANY run of `N` CELT-only constrained-VBR frames with arbitrary
+    targets: `64 · Σ bytes ≤ (N + 1) · vbr_rate` (units of 1/8 bit): the long-run average exceeds the
+    target by at most one frame's worth, ever (the ToC byte of the Opus layer comes on top). -/
+theorem cvbr_average_bound (v : Int) (hv : 128 ≤ v) (fr : List (Int × Int × Bool)) (res : Int)
+    (h0 : 0 ≤ res) (h1 : res ≤ v) (hnb : ∀ f ∈ fr, 2 ≤ f.1) :
+    64 * sumI (cvbrRun v res fr).2 ≤ (fr.length + 1) * v := by
+  obtain ⟨a, b, c⟩ := cvbr_run_bound v hv fr res h0 h1 hnb
+  have : ((fr.length : Int) + 1) * v = fr.length * v + v := by rw [Int.add_mul]; omega
+  rw [this]; omega
+
 /-! ### Non-vacuity: concrete states and oracle values satisfy the hypotheses -/
 
 def exSt : St :=
@@ -153,5 +226,12 @@ example : lowBudgetGate (budgetSt exSt (exOr 0) 960 2) 960 (sizeBudget (analysis
     (encodeNative exSt false 960 2 (exOr 0)).ok = true ∧ (encodeNative exSt false 960 2 (exOr 0)).ret = 2 ∧
     (encodeNative exSt false 960 2 (exOr 0)).pkt.lens = [0] ∧
     entryCheck exSt 960 0 = some OPUS_BAD_ARG ∧ entryCheck exSt 4800 1 = some OPUS_BUFFER_TOO_SMALL := by decide +kernel
+
+/-- a reachable state: a fresh 48 kHz stereo AUDIO encoder after OPUS_SET_BITRATE(64000). -/
+example : encArgsOk 48000 2 2049 = true ∧ (encCtl (encInit 48000 2 2049) (.set .bitrate 64000)).2 = Ret.ok := by decide +kernel
+/-- two streams, 20 ms, 255 bytes: the first stream gets 252 bytes (2 reserved for its length), the second the rest. -/
+example : msCurrMax 2 48000 960 255 0 0 = 252 ∧ msCurrMax 2 48000 960 255 254 1 = 1 ∧ msSmallest 2 48000 960 = 3 := by decide +kernel
+/-- 64 kb/s, 20 ms: vbr_rate = 10240; a frame that wants 400 bytes with a full reservoir gets 160. -/
+example : cvbrStep 10240 10240 1275 400 false = (10240, 160) ∧ cvbrStep 10240 0 1275 100 false = (0, 160) := by decide +kernel
 
 end OpusProps.C05
